@@ -279,6 +279,26 @@ pub fn run(cx: &mut Cx) {
                 }
             }
         }
+        // optional indexing/slicing of none and of a missing variable gives undefined, the plain forms are errors
+        {
+            let mut ctx = Context::new();
+            ctx.insert_value("nn", Value::none());
+            for (tpl, exp) in [
+                ("{{ nn?[1:] | default(value=\"UNDEF\") }}", "UNDEF"),
+                ("{{ nn?[0] | default(value=\"UNDEF\") }}", "UNDEF"),
+                ("{{ missing?[1:2] | default(value=\"UNDEF\") }}", "UNDEF"),
+                ("{{ missing?[::-1] is defined }}", "false"),
+                ("{{ missing[1:] | default(value=\"UNDEF\") }}", "ERR"),
+                ("{{ nn[1:] | default(value=\"UNDEF\") }}", "ERR"),
+            ] {
+                if let Some(out) = render(cx, &tera, tpl, &ctx, "optional-slice") {
+                    cx.cell(format!("O|{tpl}"));
+                    if out != exp {
+                        cx.violation("C14/optional-slice-of-none-or-undefined", format!("{tpl} rendered {out:?}, expected {exp:?}"), json!({"template": tpl}));
+                    }
+                }
+            }
+        }
         for _ in 0..20 {
             let s = hostile_string(&mut rng);
             let n = rng.below(s.chars().count() + 3);
